@@ -35,6 +35,22 @@ def variants(sc, b):
         out.append(('wss', sessprop.via_tls(sc)))
         out.append(('proxy', sessprop.via_proxy(sc)))
         out.append(('wss-proxy', sessprop.via_proxy(sessprop.via_tls(sc))))
+    conn = sc['conns'][0]
+    reset = any(s['kind'] == 'error' for s in conn['steps']) or 'error' in conn.get('writes', [])
+    if reset or sessprop.sampled(sc, b, 4):
+        # after a reset the kernel answers shutdown() with ENOTCONN: the descriptor must be closed all the same
+        out.append(('enotconn', dict(copy.deepcopy(sc), shutdown_raises=True)))
+        if sessprop.sampled(sc, b, 8):
+            out.append(('shutdown-boom', dict(copy.deepcopy(sc), shutdown_raises='boom')))
+    if 'error' in conn.get('writes', []):
+        sc2 = copy.deepcopy(sc)
+        sc2['conns'][0]['writes'] = ['boom' if x == 'error' else x for x in conn['writes']]
+        out.append(('write-boom', sc2))          # sendall raising something that is not a socket error
+    if conn.get('dns', 'ok') == 'ok' and sessprop.sampled(sc, b, 3):
+        sc2 = copy.deepcopy(sc)                   # the first resolved address cannot even get a socket: the next one is tried
+        sc2['conns'][0]['naddr'] = conn.get('naddr', 1) + 1
+        sc2['conns'][0]['sockcreate'] = ['error']
+        out.append(('create-fail', sc2))
     steps = sc['conns'][0]['steps']
     stream = sc['conns'][0]['stream']
     if sc['react'] or not steps or steps[-1]['kind'] not in ('eof', 'error', 'boom') or not stream:
